@@ -567,9 +567,14 @@ class DAGRunConcurrentManager(DAGRunManagerLike):
                 subgraph_node_id,
                 lambda: (
                     self.__has_subgraph_error(oneof_dag)  # noqa: B023
-                    or self._node_storage.exists_result_type(
-                        subgraph_node_id,  # noqa: B023
-                        exclude_type=(Recurrent,),
+                    # "None" is a valid result of a node as well
+                    or (
+                        self._node_storage.exists_node_result(subgraph_node_id)  # noqa: B023
+                        and self._node_storage.exists_result_type(
+                            subgraph_node_id,  # noqa: B023
+                            exclude_type=(Recurrent,),
+                            exclude_none=False,
+                        )
                     )
                 ),
             )
